@@ -240,6 +240,9 @@ def judge(run, c, x, xste, y, sc, eps32, model, mirrored):
     run.violate("scale_nonneg", key0, dict(det0, scale=[str(s) for s in sc[:8]]), mirrored=mirrored)
   sa = c.get("sa")
   eps = c.get("eps")
+  if qn == "binary" and sa is not None and any(a < 0 for a in (sa if isinstance(sa, list) else [sa])):
+    # numpy convention: -1 is the last axis (the SPEC groups below follow it; the code ignores such entries)
+    key0 = dict(key0, axis="negative")
   groups = A.spec_groups(c["shape"], sa if qn == "binary" else None, eps if qn == "binary" else None, c["ch_last"])
   by = {}
   for i, g in enumerate(groups):
